@@ -102,13 +102,11 @@ Definition ev_eqb (a b : ev) : bool :=
   | _, _ => false
   end.
 (* the emitted statement against the static one.  Tolerated: an INSERT / a regular UPDATE that also carries a
-   post_update column with its final value (the process step set the attribute before the row was saved; the
-   separate post_update UPDATE follows anyway), and any content of the UPDATE of post_update columns of a row
-   that is deleted in the same flush (what is written there is checked by executing the trace only) *)
-Definition extra_ins (g : graph) (r : N) (x : N * N) : bool :=
-  postcol g (fst x) && opt_eqb (ref_get (g_ref1 g) r (fst x)) (Some (snd x)).
-Definition extra_upd (g : graph) (r : N) (x : N * option N) : bool :=
-  postcol g (fst x) && opt_eqb (ref_get (g_ref1 g) r (fst x)) (snd x).
+   post_update column (the process step set the attribute before the row was saved, possibly to a value that the
+   separate post_update UPDATE, which follows anyway, replaces), and any content of the UPDATE of post_update
+   columns of a row that is deleted in the same flush; what is written there is checked by executing the trace *)
+Definition extra_ins (g : graph) (r : N) (x : N * N) : bool := postcol g (fst x).
+Definition extra_upd (g : graph) (r : N) (x : N * option N) : bool := postcol g (fst x).
 Definition stmt_matches (g : graph) (e : ev) (b : stmt) : bool :=
   match e, stmt_of g e, b with
   | EPost s, Update r u, Update r' u' =>
